@@ -146,7 +146,7 @@ def unitOps : SinkOps Unit :=
 
 example (a b : Bytes) (n : Nat) : OpsSim unitOps a b n (fun d _ _ => d = 0) (fun _ _ _ _ => True) :=
   { tag := fun _ _ _ _ _ _ => Or.inr ⟨rfl, fun _ => rfl⟩
-    nonTag := fun _ _ _ _ _ _ => Or.inr ⟨rfl, fun _ => rfl⟩
+    nonTag := fun _ _ _ _ _ _ _ => Or.inr ⟨rfl, fun _ => rfl⟩
     text := fun _ _ _ d _ _ _ hd _ h0 => by omega
     textOk := fun _ _ _ _ => Or.inr rfl
     startHint := fun _ _ _ _ _ => Or.inr ⟨rfl, fun _ => rfl⟩
@@ -155,7 +155,8 @@ example (a b : Bytes) (n : Nat) : OpsSim unitOps a b n (fun d _ _ => d = 0) (fun
 example (tbl : Table) (last : Bool) :
     MRel 0 0 0 Ab.none .none ((Parser.new tbl () .lex false).machine last) ((Parser.new tbl () .lex false).machine last) :=
   ⟨⟨rfl, rfl, rfl, rfl, rfl, rfl, rfl, rfl⟩,
-    ⟨Nat.le_refl _, rfl, (fun g => by cases g), rfl, (fun g => by cases g), trivial, trivial, trivial, (fun g => by cases g)⟩,
+    ⟨Nat.le_refl _, rfl, (fun g => by cases g), rfl, (fun g => by cases g), trivial, trivial, trivial, (fun g => by cases g),
+      (fun g => by cases g), (fun g => by cases g)⟩,
     rfl, rfl⟩
 
 /-! ## The step theorem -/
@@ -234,8 +235,8 @@ panic (`Err.panic`: a Rust debug assertion / slice out of range, or the model's 
 
 The class of controllers is `Chunk.TextBlind ctl E` (Lemmas/ChunkDisp.lean): `E` — "equal up to the
 fragmentation of the open text node" — is reflexive and transitive and respected by every controller
-operation; tokens are observed through their absolute form (`normToken`), doctype tokens through
-`force_quirks`, raw bytes and source range, attribute buffers through their in-range slices; content is never
+operation; tokens are observed through their absolute form (`normToken`), attribute buffers through their
+in-range slices; content is never
 removed (`shouldEmit = true`); text chunks never fail, never switch the encoding, are serialised to their own
 bytes, and delivering a text chunk in two pieces is `E`-equivalent to delivering it in one. -/
 
@@ -307,8 +308,6 @@ theorem C09_schedule_independent {γ : Type} (w : World γ) (E : γ → γ → P
 text chunks (passes them through) is in the class, with `E := Eq` -/
 theorem textBlind_of_ignoresText {γ : Type} (ctl : Controller γ)
     (token_norm : ∀ g t t', normToken t = normToken t' → ctl.token g t = ctl.token g t')
-    (token_doctype : ∀ g n p s n' p' s' fq raw src,
-      ctl.token g (.doctype n p s fq raw src) = ctl.token g (.doctype n' p' s' fq raw src))
     (aux_norm : ∀ g i i', AuxRefines i i' → EPanic (ctl.auxInfo g i).2 ∨ ctl.auxInfo g i = ctl.auxInfo g i')
     (emit : ∀ g, ctl.shouldEmit g = true)
     (text : ∀ g b tt l s, (ctl.token g (.text b tt l s)).1 = g ∧ (ctl.token g (.text b tt l s)).2.err = none ∧
@@ -317,7 +316,6 @@ theorem textBlind_of_ignoresText {γ : Type} (ctl : Controller γ)
   refl := fun _ => rfl
   trans := fun _ _ _ h1 h2 => h1.trans h2
   token_norm := token_norm
-  token_doctype := token_doctype
   aux_norm := aux_norm
   start := fun g g' n ns h => by subst h; exact ⟨rfl, rfl⟩
   endT := fun g g' n h => by subst h; exact ⟨rfl, rfl⟩
@@ -338,7 +336,6 @@ theorem constCtl_textBlind (f : Nat) : TextBlind (C01.constCtl f) Eq :=
       have hr : ∀ t : Token, (normToken t).raw = t.raw := fun t => by cases t <;> rfl
       have : t.raw = t'.raw := by rw [← hr t, ← hr t', h]
       simp [C01.constCtl, this])
-    (fun _ _ _ _ _ _ _ _ _ _ => rfl)
     (fun _ _ _ _ => Or.inr rfl)
     (fun _ => rfl)
     (fun _ b _ _ _ => ⟨rfl, rfl, rfl, by simp [C01.constCtl, Token.raw]⟩)
@@ -437,7 +434,6 @@ theorem byteCounter_textBlind : TextBlind byteCounter Eq where
   token_norm := fun g t t' h => by
     cases t <;> cases t' <;> simp only [normToken] at h <;> first | cases h | skip
     all_goals first | (injection h with h1 h2 h3 h4 h5 h6 h7; subst_vars; rfl) | rfl
-  token_doctype := fun _ _ _ _ _ _ _ _ _ _ => rfl
   aux_norm := fun _ _ _ _ => Or.inr rfl
   start := fun g g' n ns h => by subst h; exact ⟨rfl, rfl⟩
   endT := fun g g' n h => by subst h; exact ⟨rfl, rfl⟩
